@@ -294,6 +294,22 @@ class Check(PropertyCheck):
             op = d.available_operations()[0]
             d.dispatch(op, op.machines[0])
         d.reset()
+        # rejected requests (bad machine ids of every flavour, not-next operations) leave the instance alone as well
+        for job in I.jobs:
+            for bad in (-1, -2, I.num_machines, I.num_machines + 3) + tuple(m for m in range(I.num_machines) if m not in job[0].machines):
+                try:
+                    d.dispatch(job[0], bad)
+                except Exception:  # pylint: disable=broad-except
+                    pass
+                else:
+                    d.reset()
+            if len(job) > 1:
+                try:
+                    d.dispatch(job[-1], job[-1].machines[0])
+                except Exception:  # pylint: disable=broad-except
+                    pass
+                else:
+                    d.reset()
         del obs
         for b in (build_disjunctive_graph, build_agent_task_graph, build_complete_agent_task_graph,
                   build_agent_task_graph_with_jobs):
